@@ -317,12 +317,22 @@ def gen(T, rng, scale):
     cexprs = ['(float)0.1', '16777216.0f + 1.0f', '0.1f * 3', '(double)(0.1f + 0.2f)', '1.0f / 3.0f', '(float)1e-50', '(double)(float)16777217', '0.1f + 0.2', '(long double)0.1f * 3',
               '1e38f * 10.0f', '(float)0.1 + (float)0.2', '(0.1f + 0.2f) + 0.3f', '0.1f + (0.2f + 0.3f)', '(float)(0.1 + 0.2)', '1.1f * 1.1f', '(double)1.1f * 1.1f', '16777217.0 - 16777216.0f',
               '(float)16777217 - 16777216.0f', '(float)9007199254740993.0L', '(double)9007199254740993.0L + 1.0', '0.1L + 0.2', '(float)(1.0L / 3)', '3.0f * (1.0f / 3.0f)', '1e-45f / 2',
-              '-(0.0f)', '0.0f * -1.0f', '(float)-0.0', '1.0f - 1.0f', '(float)1e39', '(double)1e400L', '65504.0f * 1.0009765625f']
+              '1152921573326323713L', '0x1.000001000000001p0L', '16777217L + 0', '9007199254740993L', '18446744073709551615UL', '0x1.00000000000008000001p0L', '1152921573326323713UL', '-(0.0f)', '0.0f * -1.0f', '(float)-0.0', '1.0f - 1.0f', '(float)1e39', '(double)1e400L', '65504.0f * 1.0009765625f']
     for ce in cexprs:
         for t in ('f32', 'f64', 'f80'):
             n = nbytes(t)
             obs.append(Obs(lambda k, ce=ce, t=t, n=n: '{ static %s y = %s; OUT(%d, &y, %d); %s z = %s; OUT(%d, &z, %d); static int yi = (int)(%s) == (int)(%s); OUTV(%d, yi); }'
                            % (cname(t), ce, k, n, cname(t), ce, k, n, ce, ce, k), 'C02|constexpr|%s|%s' % (t, ce), 'constant expression ' + ce, 3, [t, t, 'v']))
+    # floating constants converted to integer types by the compiler (static initializer) and at run time (automatic, volatile operand); in-range values up to the edge
+    iconv = [('unsigned long', ['1.5e19', '9223372036854775808.0', '18446744073709549568.0', '1.8e19L', '0x1p63', '0x1.fffffffffffffp63', '1.5e19f', '9223372036854775809.0L', '0.99', '4e18']),
+             ('long', ['-9.2e18', '9.2e18', '-0x1p63', '0x1.fffffffffffffp62', '-1.5', '-0.99L']), ('unsigned', ['3e9', '4294967295.0', '2147483648.0f', '4294967295.5L', '2147483647.5']),
+             ('int', ['-2147483648.0', '2147483647.0', '-2147483648.9', '2147483647.9L', '-1.9f']), ('unsigned short', ['65535.9', '40000.0f', '32768.0L']), ('short', ['-32768.5', '32767.9L', '300.0f', '2.7f', '-0.6f', '1.5f', '2.5f']),
+             ('unsigned char', ['255.9', '128.0f', '200.5L']), ('signed char', ['-128.9', '127.5f', '-1.0L']), ('_Bool', ['0.5', '1e-30f', '-0.0', '256.0', '0.0L'])]
+    for (it, vals) in iconv:
+        for v in vals:
+            vt = 'float' if v[-1] in 'fF' else 'long double' if v[-1] in 'lL' else 'double'
+            obs.append(Obs(lambda k, it=it, v=v, vt=vt: '{ static %s y = (%s)%s; OUTV(%d, (long)y); volatile %s src = %s; %s z = (%s)src; OUTV(%d, (long)z); static long w = (%s)(%s) + 0; OUTV(%d, w); }'
+                           % (it, it, v, k, vt, v, it, it, k, it, v, k), 'C02|constconv|%s|%s' % (it.replace(' ', '-'), v), 'conversion of the constant %s to %s' % (v, it), 3, ['v', 'v', 'v']))
     for l in lits:
         t = 'f32' if l[-1] in 'fF' else 'f80' if l[-1] in 'lL' else 'f64'
         n = nbytes(t)
